@@ -7,6 +7,7 @@ name); a freshly loaded template is stored under the same key; Template.is_up_to
 delegates to the loader's uptodate callable; every loader whose source can change returns
 an uptodate callable that re-reads current state and fails closed; create_cache /
 copy_cache map sizes 0, <0, >0 to no cache, dict, LRUCache(size).
+Also: every from_code in BaseLoader.load receives the uptodate callable.  
 Not decided: histories of loads and source changes, LRU eviction order (see C26).
 """
 
